@@ -70,6 +70,7 @@ func KeyPair(sch *crypto.Scheme, addr, seed string) *key.Pair {
 type Epoch struct {
 	Commits []kyber.Point
 	Shares  []*share.PriShare
+	Secret  kyber.Scalar // the group secret (never known to anyone in a real network; used to make honest beacons)
 }
 
 // Deal creates a sharing polynomial of threshold t with n shares. Two epochs dealt with the same
@@ -78,8 +79,26 @@ func Deal(sch *crypto.Scheme, n, t int, secretSeed, polySeed string) *Epoch {
 	secret := sch.KeyGroup.Scalar().Pick(Stream(secretSeed))
 	poly := share.NewPriPoly(sch.KeyGroup, t, secret, Stream(polySeed))
 	_, commits := poly.Commit(nil).Info()
-	return &Epoch{Commits: commits, Shares: poly.Shares(n)}
+	return &Epoch{Commits: commits, Shares: poly.Shares(n), Secret: secret}
 }
+
+// SignBeacon produces the (unique) group signature of a round, i.e. what an honest network outputs.
+func SignBeacon(sch *crypto.Scheme, e *Epoch, round uint64, prev []byte) []byte {
+	msg := sch.DigestBeacon(&beaconMsg{round, prev})
+	sig, err := sch.AuthScheme.Sign(e.Secret, msg)
+	if err != nil {
+		panic(err)
+	}
+	return sig
+}
+
+type beaconMsg struct {
+	round uint64
+	prev  []byte
+}
+
+func (b *beaconMsg) GetRound() uint64              { return b.round }
+func (b *beaconMsg) GetPreviousSignature() []byte { return b.prev }
 
 // Share wraps share i of the epoch as drand's key.Share.
 func (e *Epoch) Share(sch *crypto.Scheme, i int) *key.Share {
